@@ -61,6 +61,14 @@ CLAIMED = {
              "uncached recomputation (cached_answers_equal_recomputed), all outcomes are independent of the flag "
              "(answers_independent_of_flag), coherence invariant on every reachable state. Fresh-interpreter clause: C10 legs.",
         note=N + " Filters are pure and compare by identity as memo keys.", design="6/C05", technique=T),
+    "C10": dict(
+        text="Proof (partial): the queue scheduler produces exactly the recursive pickler's stream and memo, and conversely, for an "
+             "arbitrary per-object save behaviour (any size, depth, sharing, cycles); executable versions sound and complete. "
+             "Decoding to an isomorphic, usable, detached copy is pickle's/dill's behaviour: decided by round-trip legs (pickle and "
+             "dill, in-process and fresh interpreter, caching on/off, protocols 0-5), opcode equality with recursive dill, and a "
+             "depth leg under recursion limit 400.",
+        note=N + " dill's per-type save behaviour is a parameter (traced from real runs for the tie).", design="6/C10",
+        technique="Coq proof (defunctionalisation of the recursion into the queue) + traced-run correspondence + round-trip oracle"),
     "C11": dict(
         text="Proof (full): load_adj_dict / load_adj_matrix as sequences of API calls: new universe, members in first-mention / side "
              "order, one link per pair / truthy cell in input order and orientation, existing graph in place, FORWARD read-back, "
